@@ -196,6 +196,8 @@ def main():
                 if hasattr(cls, 'insert'):
                     entries.append(('insert', lambda t: t.insert(x, goodv)))
             for name, f in entries + [('empty:' + n_, f_) for n_, f_ in entries if f_ is not None]:
+                if name.startswith('ixor_from_') and any(x is g for g in goodk):
+                    continue        # (^= toggles: a key that is stored already would be removed)
                 t = cls() if name.startswith('empty:') else fresh(cls, is_set)
                 before = snapshot(t, is_set)
                 try:
